@@ -592,7 +592,7 @@ class Function(ClassOrFunc):
                 try:
                     nested_children = element.children
                 except AttributeError:
-                    if element.value == 'yield':
+                    if element.value == 'yield' and element.type != 'fstring_string':
                         if element.parent.type == 'yield_expr':
                             yield element.parent
                         else:
